@@ -10,6 +10,9 @@ PROP = dict(
     rule="(totality) malformed / mutated lines for both decoders (truncated, wrong separators, huge numbers, bytes >= 0x80, LF/CR "
          "inside, JSON-looking incl. [null], {, [1], misaligned SysStat scans) and messages for both encoders with any presence "
          "pattern and out-of-range enums/integers, incl. messages obtained from proto.Unmarshal of mutated wire bytes; "
+         "call sequences on these hostile inputs (ein/eout .seq, .par, .reuse, din/dout .seq: results of earlier calls kept and re-read "
+         "after later calls, calls of even / odd index in two goroutines with 12 repetitions, message objects overwritten in place and "
+         "converted again; every result compared with the model of its own call); "
          "(re-entrancy) conc.run records: 4-32 goroutines x 2-4 rounds through the four converters and the streaming reader (with "
          "and without the JSON state hop), every result compared with the sequential one; inputs: 28 shared input sets (messages of "
          "every kind, several states incl. two images of different formats in one message, multi-line texts / names / topology "
